@@ -265,6 +265,8 @@ def corner_corpus():
     add("norepeat", [b"ab", b"cd", b"ef", b"gh", b"ij"])
     add("urls500", [b"http://host/dir/dir/file-%d" % i for i in range(500)])
     add("single_long", [b"x" * 700])
+    add("lcp16390", [b"a", b"x" * 16390, b"x" * 16390 + b"a", b"x" * 16390 + b"ab", b"x" * 16390 + b"b", b"y"])   # three-byte VByte with a zero middle byte
+    add("lcp17000", [b"a", b"x" * 17000, b"x" * 17000 + b"a", b"x" * 17000 + b"ab", b"x" * 17000 + b"b", b"y"])   # three-byte VByte
     add("two_prefix", [b"abc", b"abcd"])
     add("words7", [b"alpha", b"alpine", b"beta", b"betamax", b"gamma", b"gammb", b"zeta"])
     return C
